@@ -295,11 +295,15 @@ def array_contract_path(
         try:
             path = _PATH_CACHE[key]
         except KeyError:
-            path = _PATH_CACHE[key] = find_path(
-                inputs, output, size_dict, optimize
+            # n.b. store an immutable copy, some finders return nested lists
+            # and the caller is free to modify what they are given
+            path = _PATH_CACHE[key] = tuple(
+                map(tuple, find_path(inputs, output, size_dict, optimize))
             )
     else:
-        path = find_path(inputs, output, size_dict, optimize)
+        path = tuple(
+            map(tuple, find_path(inputs, output, size_dict, optimize))
+        )
 
     return path
 
